@@ -114,6 +114,21 @@ Definition srk_rec_of_key (ca : bool) (k : key) : res srk_rec :=
           sr_ksid := si_ksid si; sr_flags := srk_flags ahab1 ca; sr_params := si_data si |}).
 Definition srk_sig5 (r : srk_rec) : N * N * N * N * N := (sr_alg r, sr_hash r, sr_ksid r, sr_len r, sr_flags r).
 
+(* SRKRecord.get_public_key of a parsed record *)
+Definition srk_rec_key (r : srk_rec) : res key :=
+  match lookup2 g_ahab1_key_sizes (sr_ksid r) with
+  | None => Err 2
+  | Some (l1, _) =>
+      let p1 := be_dec (firstn (N.to_nat l1) (sr_params r)) in
+      let p2 := be_dec (skipn (N.to_nat l1) (sr_params r)) in
+      if (sr_alg r =? 33) || (sr_alg r =? 34) then (if rsa_numbers_ok p1 p2 then Ok (KRsa p1 p2) else Err 2)
+      else if sr_alg r =? 39 then
+        match find (fun p => snd p =? sr_ksid r) g_ahab1_ecc_type with
+        | Some (c, _) => if on_curve c p1 p2 then Ok (KEcc c p1 p2) else Err 1
+        | None => Err 1                                    (* get_key_by_val: SPSDKValueError *)
+        end
+      else Err 1
+  end.
 (* record-level verify() of a v1 record; Err 2 = KeyError on KEY_SIZES[key_size] *)
 Definition srk_rec_verify (r : srk_rec) : res bool :=
   match lookup2 g_ahab1_key_sizes (sr_ksid r) with
@@ -123,9 +138,14 @@ Definition srk_rec_verify (r : srk_rec) : res bool :=
       let ks_ok := if (alg =? 33) || (alg =? 34) then mem_n (sr_ksid r) (map snd g_ahab1_rsa_type)
                    else if alg =? 39 then mem_n (sr_ksid r) (map snd g_ahab1_ecc_type)
                    else if alg =? 40 then sr_ksid r =? 8 else true in
+      (* "Restore public key": an SPSDK error is a warning only, a ValueError from `cryptography` (RSA numbers) escapes *)
+      match srk_rec_key r with
+      | Err 2 => Err 2
+      | _ =>
       Ok ((sr_len r =? srk_rec_size r) && mem_n alg g_srk_v1_algs && mem_n (sr_hash r) g_srk_v1_hashes && ks_ok
           && (sr_len r =? 12 + l1 + l2)
           && (nlen (firstn (N.to_nat l1) (sr_params r)) =? l1) && (nlen (skipn (N.to_nat l1) (sr_params r)) =? l2))
+      end
   end.
 (* SRKTable.verify().validate() *)
 Definition srk_table_verify (t : srk_table) : res unit :=
@@ -158,21 +178,6 @@ Definition srk_table_parse (d : list N) : res srk_table :=
   let sz := N.to_nat ((len - 4) / 4) in
   bind (map_res (fun i => srk_rec_parse (skipn (4 + i * sz) d)) [0; 1; 2; 3]%nat) (fun rs =>
     Ok {| st_len := len; st_recs := rs |}).
-(* SRKRecord.get_public_key of a parsed record *)
-Definition srk_rec_key (r : srk_rec) : res key :=
-  match lookup2 g_ahab1_key_sizes (sr_ksid r) with
-  | None => Err 2
-  | Some (l1, _) =>
-      let p1 := be_dec (firstn (N.to_nat l1) (sr_params r)) in
-      let p2 := be_dec (skipn (N.to_nat l1) (sr_params r)) in
-      if (sr_alg r =? 33) || (sr_alg r =? 34) then (if rsa_numbers_ok p1 p2 then Ok (KRsa p1 p2) else Err 2)
-      else if sr_alg r =? 39 then
-        match find (fun p => snd p =? sr_ksid r) g_ahab1_ecc_type with
-        | Some (c, _) => if on_curve c p1 p2 then Ok (KEcc c p1 p2) else Err 1
-        | None => Err 2
-        end
-      else Err 1
-  end.
 Definition srk_rec_eqb (a b : srk_rec) : bool :=
   sig_eqb (srk_sig5 a) (srk_sig5 b) && eqb_list (sr_params a) (sr_params b).
 Fixpoint list_eqb {A} (f : A -> A -> bool) (a b : list A) : bool :=
@@ -325,10 +330,10 @@ Definition ecc_parse (d : list N) : res dc :=
     if negb (version_ok maj mi) then Err 1 else
     bind (ecc_hash_size mi) (fun hs =>
     if negb (mem_n hs (map fst g_hash_sizes)) then Err 1 else
-    bind (ecc_meta_parse hs (skipn 28 d)) (fun m =>
+    bind (ecc_meta_parse hs (skipn 36 d)) (fun m =>
     bind (rotmeta_export m) (fun mb =>
     let w := (2 * N.to_nat hs)%nat in
-    bind (unpack_from [FS w; FS w; FS w] d (28 + length mb)) (fun t =>
+    bind (unpack_from [FS w; FS w; FS w] d (36 + length mb)) (fun t =>
     bind (pub_parse (xb (nth 1 t (XI 0)))) (fun dck =>
     bind (pub_parse (xb (nth 0 t (XI 0)))) (fun rot =>
       Ok {| d_major := maj; d_minor := mi; d_socc := xi (g 2%nat); d_uuid := xb (g 3%nat); d_meta := m; d_dck := dck;
@@ -341,7 +346,7 @@ Definition ele_parse (d : list N) : res dc :=
     let g i := nth i h (XI 0) in
     let maj := xi (g 0%nat) in let mi := xi (g 1%nat) in
     if negb (version_ok maj mi) then Err 1 else
-    bind (ele_meta_parse (skipn 28 d)) (fun m =>
+    bind (ele_meta_parse (skipn 36 d)) (fun m =>
     match m with
     | RMEle used cnt t =>
         bind (map_res srk_rec_key (st_recs t)) (fun keys =>
@@ -350,7 +355,7 @@ Definition ele_parse (d : list N) : res dc :=
         | Some rot =>
             bind (raw_key rot) (fun rb =>
             bind (rotmeta_export m) (fun mb =>
-            bind (unpack_from [FS (length rb); FS (key_sig_size rot)] d (28 + length mb)) (fun t2 =>
+            bind (unpack_from [FS (length rb); FS (key_sig_size rot)] d (36 + length mb)) (fun t2 =>
             bind (pub_parse (xb (nth 0 t2 (XI 0)))) (fun dck =>
               Ok {| d_major := maj; d_minor := mi; d_socc := xi (g 2%nat); d_uuid := xb (g 3%nat); d_meta := m; d_dck := dck;
                     d_socu := xi (g 4%nat); d_vu := xi (g 5%nat); d_beacon := xi (g 6%nat); d_rot := rot;
@@ -609,9 +614,31 @@ Definition val_of_dc (c : klass) (d : dc) : value :=
          vN (d_beacon d); vbr (rotmeta_export (d_meta d)); val_of_key (d_dck d); val_of_key (d_rot d); VBytes (d_sig d)].
 Definition zb (z : Z) : bool := negb (z =? 0)%Z.
 
+(* large byte strings travel as big-endian chunks of 128 bytes (cheaper to parse than list literals) *)
+Fixpoint bx (chunks : list N) (last : nat) : list N :=
+  match chunks with
+  | [] => []
+  | [c] => be_encf last c
+  | c :: t => be_encf 128 c ++ bx t last
+  end.
+(* results are compressed against a reference that both sides of the correspondence have: 1 = "equal to the reference" *)
+Definition cmp_bytes (ref out : list N) : value := if eqb_list ref out then VInt 1 else VBytes out.
+Definition cmp_res (ref : res (list N)) (r : res (list N)) : value :=
+  match r with
+  | Err k => VErr k
+  | Ok b => match ref with Ok rb => cmp_bytes rb b | Err _ => VBytes b end
+  end.
+Definition cmp_key (ref k : key) : value := if key_eqb ref k then VInt 1 else val_of_key k.
+Definition val_of_dc_cmp (ref : dc) (c : klass) (d : dc) : value :=
+  VList [VInt (klass_id c); vN (d_major d); vN (d_minor d); vN (d_socc d); VBytes (d_uuid d); vN (d_socu d); vN (d_vu d);
+         vN (d_beacon d); cmp_res (rotmeta_export (d_meta ref)) (rotmeta_export (d_meta d)); cmp_key (d_dck ref) (d_dck d);
+         cmp_key (d_rot ref) (d_rot d); cmp_bytes (d_sig ref) (d_sig d)].
+Definition is_prefix (a b : list N) : bool := eqb_list a (firstn (length a) b).
+
 Definition run_case (fn : Z) (args : list value) : value :=
   match fn, args with
-  (* 1: credential life cycle: family facts, inputs, signature as produced -> [class; major; minor; export; parse...; hash] *)
+  (* 1: credential life cycle: family facts, inputs, signature as produced
+        -> [class; major; minor; export; export = tbs ++ signature field; parse...; hash] *)
   | 1%Z, [VInt ele; VInt cnt; VInt socc; VList kvs; VInt rot_id; dckv; VBytes uuid; VInt socu; VInt vu; VInt beacon;
           VInt fca; VBytes sig] =>
       match keys_of_vals kvs, key_of_val dckv with
@@ -622,31 +649,44 @@ Definition run_case (fn : Z) (args : list value) : value :=
           | Ok (c, d0) =>
               let d := dc_with_sig d0 sig in
               let ex := dc_export c d in
-              VList [VInt (klass_id c); vN (d_major d); vN (d_minor d); vbr ex; vbr (dc_tbs c d);
+              VList [VInt (klass_id c); vN (d_major d); vN (d_minor d); vbr ex;
+                     match ex, dc_tbs c d with
+                     | Ok b, Ok t => vbool (is_prefix t b)
+                     | _, Ok _ => VInt 1
+                     | _, Err k => VErr k
+                     end;
                      match ex with
                      | Err k => VErr k
                      | Ok b => match dc_parse b with
                                | Err k => VErr k
-                               | Ok (c', p) => VList [val_of_dc c' p; vbool (dc_eqb p d && (klass_id c =? klass_id c')%Z);
-                                                      vbr (dc_export c' p)]
+                               | Ok (c', p) => VList [val_of_dc_cmp d c' p; vbool (dc_eqb p d && (klass_id c =? klass_id c')%Z);
+                                                      cmp_res ex (dc_export c' p)]
                                end
                      end;
                      vbr (dc_calc_hash c d)]
           end
       | _, _ => VErr E_BADCASE
       end
-  (* 2: DebugCredentialCertificate.parse of arbitrary bytes -> [fields; re-export; hash] *)
+  (* 2: DebugCredentialCertificate.parse of arbitrary bytes -> [fields; re-export (1 = a prefix of the input); hash] *)
   | 2%Z, [VBytes b] =>
       match dc_parse b with
       | Err k => VErr k
-      | Ok (c, p) => VList [val_of_dc c p; vbr (dc_export c p); vbr (dc_calc_hash c p)]
+      | Ok (c, p) => VList [val_of_dc c p;
+                            match dc_export c p with Err k => VErr k | Ok r => if is_prefix r b then VInt 1 else VBytes r end;
+                            vbr (dc_calc_hash c p)]
       end
   (* 3: response: protocol version of the credential, credential bytes, beacon, device uuid, challenge, signature
-        -> [signed message; exported response] *)
+        -> [signed message (1 = response-without-signature ++ challenge); exported response] *)
   | 3%Z, [VInt maj; VInt mi; VBytes dcb; VInt beacon; VBytes uuid; VBytes ch; VBytes sig] =>
       match dar_uses_uuid (Z.to_N maj) (Z.to_N mi) with
       | Err k => VErr k
-      | Ok u => VList [vbr (dar_tbs u dcb (Z.to_N beacon) uuid ch); vbr (dar_export u dcb (Z.to_N beacon) uuid sig)]
+      | Ok u =>
+          let t := dar_tbs u dcb (Z.to_N beacon) uuid ch in
+          let e := dar_export u dcb (Z.to_N beacon) uuid sig in
+          VList [match t, e with
+                 | Ok tb, Ok eb => if eqb_list tb (firstn (length eb - length sig) eb ++ ch) then VInt 1 else VBytes tb
+                 | _, _ => vbr t
+                 end; vbr e]
       end
   (* 4: DebugAuthenticationChallenge.parse -> fields + export of the parsed object *)
   | 4%Z, [VBytes b] =>
